@@ -34,6 +34,11 @@ RPairs == {[op |-> "rpair", pair |-> pr, dx |-> dx, dy |-> dy, st |-> st, dt |->
 GPairs == {[op |-> "rpair", pair |-> pr, dx |-> 0, dy |-> 0, st |-> st, dt |-> dt, zoom |-> "global"] :
              pr \in {"4326G>32633", "4326G>3035", "4326G>3577", "4326G>3575", "3857G>32633", "3857G>4326"},
              st \in {<<<<20, 20, 20>>, <<30, 30, 30, 30>>>>, <<<<10, 30, 20>>, <<60, 60>>>>}, dt \in {<<<<16, 16, 16>>, <<16, 16, 16>>>>, <<<<48>>, <<1, 40, 7>>>>}}
+\* destination tiles tens of degrees wide (one row of lon/lat tiles 30 / 60 / 30 or 40 / 40 / 40 degrees wide, low-latitude edge at +-50) over a polar-projection
+\* source of 2 km pixels cut into 10 km tiles along that edge: the edge is a strongly curved arc in the source CRS
+Fives(n) == [i \in 1..n |-> 5]
+WPairs == {[op |-> "rpair", pair |-> pr, dx |-> 0, dy |-> 0, st |-> <<Fives(ny), Fives(40)>>, dt |-> dt, zoom |-> "wide"] :
+             pr \in {"3031>4326W", "3413>4326W", "3575>4326W"}, ny \in {20, 30}, dt \in {<<<<8>>, <<30, 60, 30>>>>, <<<<4, 4>>, <<40, 40, 40>>>>}}
 \* geometry queries in a REALLY different CRS: ellipses in lon/lat (centre and half-axes in tenths of a degree) against grids in polar / conic projections,
 \* where the sides of the query's bounding box bend when projected.  Environment table: sample points inside the ellipse projected with fresh pyproj;
 \* a tile holding three or more of them, well inside, is intersected by the query beyond doubt.
@@ -42,7 +47,7 @@ RQueries == {[op |-> "rquery", grid |-> gr, lon |-> lo, lat |-> la, a |-> a, b |
                tl \in {<<<<10, 10, 10, 10, 10, 10>>, <<10, 10, 10, 10, 10, 10>>>>, <<<<20, 40>>, <<5, 25, 30>>>>}}
 VARIABLE c
 Init == c \in {[k |-> "r", v |-> 0]} \cup {[k |-> "q", v |-> B] : B \in Bases} \cup {[k |-> "p", v |-> s] : s \in PScales}
-Next == "k" \in DOMAIN c /\ c' \in (IF c.k = "q" THEN QueryCases(c.v) ELSE IF c.k = "r" THEN UNION {RPairs, GPairs, RQueries} ELSE IF c.v = 960 THEN PairCases(c.v) \cup SameGridPairs ELSE PairCases(c.v)) /\ Emit(c')
+Next == "k" \in DOMAIN c /\ c' \in (IF c.k = "q" THEN QueryCases(c.v) ELSE IF c.k = "r" THEN UNION {RPairs, GPairs, WPairs, RQueries} ELSE IF c.v = 960 THEN PairCases(c.v) \cup SameGridPairs ELSE PairCases(c.v)) /\ Emit(c')
 Spec == Init /\ [][Next]_c
 \* design level: the transcribed linear path lists every needed source tile
 ModelOK == ("op" \in DOMAIN c /\ c.op = "pair" /\ IsST(c.A)) => LinearComplete([c |-> c, sy |-> c.sy, sx |-> c.sx, dy |-> c.dy, dx |-> c.dx])
